@@ -448,6 +448,12 @@ def build_request(c, cfg):
       tr.infeasible_reason = 'r'
     elif tk == 'active':
       tr.state = T.ACTIVE
+    elif tk == 'rich':
+      # a user-added trial that already carries intermediate measurements and metadata
+      tr.measurements.append(meas({'m': c.get('v', 1), 'n': c.get('w', 1)}, step=1))
+      tr.measurements.append(meas({'m': c.get('w', 1), 'n': c.get('v', 1)}, step=2))
+      kv = tr.metadata.add(key='k1', ns=':a')
+      kv.value = str(c.get('v', 1))
     return 'CreateTrial', vs.CreateTrialRequest(parent=c['study'], trial=tr)
   if kind == 'SuggestTrials':
     return 'SuggestTrials', vs.SuggestTrialsRequest(
